@@ -28,6 +28,7 @@ import (
 	"time"
 
 	"github.com/influxdata/influxdb/pkg/limiter"
+	"github.com/influxdata/influxdb/pkg/verifhook"
 	"github.com/influxdata/influxdb/tsdb"
 )
 
@@ -1125,6 +1126,9 @@ func (c *Compactor) write(path string, iter KeyIterator, throttle bool) (err err
 		if err == nil {
 			err = closeErr
 		}
+		if verifhook.Enabled && err == nil {
+			verifhook.Point("tsm.tmp.written", path)
+		}
 
 		// Check for errors where we should not remove the file
 		_, inProgress := err.(errCompactionInProgress)
@@ -1146,6 +1150,9 @@ func (c *Compactor) write(path string, iter KeyIterator, throttle bool) (err err
 
 		if !enabled {
 			return errCompactionAborted{}
+		}
+		if verifhook.Enabled {
+			verifhook.Yield("compactor.write.block", path)
 		}
 		// Each call to read returns the next sorted key (or the prior one if there are
 		// more values to write).  The size of values will be less than or equal to our
